@@ -84,12 +84,24 @@ def r_serde(f):
                 if lit == "data":
                     names = [x[2] for x in walk(v) if x[0] == "call"]
                     getter = "cells" if "cells" in names else (names[0] if names else None)
+                    if getter is None:
+                        # a crate wrapper type around the view whose own Serialize impl writes the sequence of cells()
+                        for x in walk(v):
+                            if x[0] == "agg" and x[1].startswith("adt:") and any(y in (("param", selfparam), ("deref", ("param", selfparam))) for fl_ in x[2] for y in walk(fl_)):
+                                wname = x[1][4:].split("::")[-2] if x[1].count("::") else x[1][4:]
+                                wb = [c for c in f.fn_bodies if c.name == "serialize" and c.impl_trait and c.self_head == wname]
+                                if len(wb) == 1:
+                                    wd = Dfx(wb[0])
+                                    seqs = [t2 for _, t2, fn2 in wb[0].calls() if fn2 and fn2["name"] in ("collect_seq", "serialize_seq", "serialize_element")]
+                                    inner = [y[2] for _, t2, fn2 in wb[0].calls() for a2 in t2["args"] for y in walk(wd.expr(a2)) if y[0] == "call"]
+                                    if seqs and "cells" in inner:
+                                        getter = "cells"
                 pairs.append((lit, getter))
         if not pairs and depth < 2:
             # the body may have moved into a crate-local helper that receives the view
             for bi, t, fn in b.calls():
                 cb = f.crate_fn_for_call(fn) if fn else None
-                if cb is not None and cb.id != b.id and any(strip(d.expr(a)) in (("param", selfparam), ("deref", ("param", selfparam))) for a in t["args"]):
+                if cb is not None and cb.id != b.id and any(strip(d.expr(a)) in (("param", selfparam), ("deref", ("param", selfparam))) or _whole_view(strip(d.expr(a)), selfparam) for a in t["args"]):
                     sub = writer_pairs(cb, 1, depth + 1)
                     if sub:
                         return sub
@@ -112,12 +124,14 @@ def r_serde(f):
         if len(cands) != 1:
             raise AnchorMissing("Visitor::visit_map of the TooDee deserialiser")
         vm = cands[0]
-    d = Dfx(vm)
     names = {}
     for v in vm.d.get("debug", []):
         val = v.get("v")
         if isinstance(val, dict) and "local" in val and not val.get("proj"):
             names.setdefault(val["local"], v["name"])
+    # named slots that are handed to a callee by `&mut` are written there: never read them as their initial value
+    mut_borrowed = {st["rv"]["p"]["local"] for _, _, st in vm.stmts() if st["k"] == "assign" and st["rv"]["k"] in ("ref", "rawptr") and (st["rv"].get("mut") or "Mut" in str(st["rv"].get("kind", ""))) and not any(e["k"] == "deref" for e in st["rv"]["p"]["proj"])}
+    d = Dfx(vm, opaque={l for l in mut_borrowed if l in names and names[l] in want})
     # t2 key type
     keytys = [fn["args"][-1] for bi, t, fn in vm.calls() if fn and fn["name"] in ("next_key", "next_entry")]
     n += 1
@@ -170,6 +184,19 @@ def r_serde(f):
                         stored.setdefault(lit, names[st["p"]["local"]])
                         hit = True
             tt = bl["term"]
+            if tt and tt["k"] == "call" and tt["func"].get("fn") and not hit:
+                # a crate helper that receives `&mut slot` and stores Some(next_value()) through it
+                hb = f.crate_fn_for_call(tt["func"]["fn"])
+                if hb is not None and hb.id != vm.id:
+                    for ai, a in enumerate(tt["args"]):
+                        ea = strip(d.expr(a))
+                        if ea[0] == "refmut" and strip(ea[1])[0] == "var" and strip(ea[1])[1] in names and _stores_some_through(hb, ai + 1):
+                            stored.setdefault(lit, names[strip(ea[1])[1]])
+                            hit = True
+                    if hit:
+                        ls = [const_str(d.expr(a)) for a in tt["args"] if const_str(d.expr(a)) is not None]
+                        if ls and any(fn3 and fn3["name"] == "duplicate_field" for _, _, fn3 in hb.calls()):
+                            dup[lit] = ls[0]
             if tt and tt["k"] == "call" and tt["func"].get("fn") and tt["func"]["fn"]["name"] == "duplicate_field":
                 dl = [const_str(d.expr(a)) for a in tt["args"]]
                 dup[lit] = dl[0] if dl else None
@@ -327,11 +354,15 @@ def r_serde(f):
                     if x[0] == "field" and x[2] == 1 and x[1][0] == "call" and x[1][2] == "overflowing_mul" and _same_pair(x[1][3], dim_args):
                         hit = "flag"
                     if x[0] == "discr" and any(y[0] == "call" and y[2] == "checked_mul" and _same_pair(y[3], dim_args) for y in walk(x)):
-                        hit = "discr"
+                        # Option (None = 0) or, after `.ok_or(..)?`, the ControlFlow of Try::branch (Continue = 0)
+                        inner = strip(x[1])
+                        hit = "discr-cf" if inner[0] == "call" and inner[2] == "branch" else "discr"
                 if hit == "flag" and reach_f and not reach_t:
                     ok, why = True, "overflow flag of overflowing_mul(num_cols, num_rows) branches to Err"
                 if hit == "discr" and reach_t and not reach_f:
                     ok, why = True, "checked_mul(num_cols, num_rows) None branches to Err"
+                if hit == "discr-cf" and reach_f and not reach_t:
+                    ok, why = True, "checked_mul(num_cols, num_rows).ok_or(..)? : None becomes Err and is returned by `?`"
             if kind == "K_LEN" and e[0] == "bin" and e[1] in ("Ne", "Eq"):
                 sides = [strip(e[2]), strip(e[3])]
                 has_len = any(s_[0] == "call" and s_[2] == "len" for s_ in sides)
@@ -346,6 +377,33 @@ def r_serde(f):
     if "K_UNKNOWN" in kinds:
         R.fail(vm.ident, "t4:K_UNKNOWN", "the constructor %s has a panic condition the classifier does not recognise; it cannot be shown to be discharged" % cb.ident, vm.where(t["span"]))
     return R, n
+
+
+def _whole_view(e, selfparam):
+    """`&self.view((0, 0), self.size())`: a read-only view of the whole receiver (same dimensions, same cells)"""
+    e = strip(e)
+    if e[0] in ("ref", "refmut"):
+        e = strip(e[1])
+    if e[0] != "call" or e[2] != "view" or len(e[3]) != 3:
+        return False
+    recv, start, end = [strip(x) for x in e[3]]
+    me = (("param", selfparam), ("deref", ("param", selfparam)), ("ref", ("deref", ("param", selfparam))))
+    if recv not in me:
+        return False
+    if not (start[0] == "agg" and start[1] == "tuple" and [const_usize(strip(x)) for x in start[2]] == [0, 0]):
+        return False
+    return end[0] == "call" and end[2] == "size" and len(end[3]) == 1 and strip(end[3][0]) in me
+
+
+def _stores_some_through(hb, param):
+    """the helper assigns `*param = Some(<value obtained from next_value / next_element>)`"""
+    hd = Dfx(hb)
+    for _, _, st in hb.stmts():
+        if st["k"] == "assign" and st["p"]["local"] == param and [e["k"] for e in st["p"]["proj"]] == ["deref"]:
+            ev = strip(hd.rvalue(st["rv"]))
+            if ev[0] == "agg" and ev[1].endswith("Option::Some") and any(x[0] == "call" and x[2] in ("next_value", "next_value_seed", "next_element") for x in walk(ev)):
+                return True
+    return False
 
 
 def size_components(f):
@@ -380,6 +438,18 @@ def _is_product(e, dim_args):
             return True
     if e[0] == "call" and e[2] in ("unwrap", "unwrap_unchecked") and e[3] and strip(e[3][0])[0] == "call" and strip(e[3][0])[2] == "checked_mul" and _same_pair(strip(e[3][0])[3], dim_args):
         return True
+    # the value carried out of `checked_mul(..).ok_or_else(..)?`: peel Continue/Some/Ok payloads, Try::branch and ok_or*
+    x = e
+    for _ in range(8):
+        x = strip(x)
+        if x[0] == "field" and x[2] == 0 and strip(x[1])[0] == "downcast" and strip(x[1])[2] in ("Continue", "Some", "Ok"):
+            x = strip(x[1])[1]
+        elif x[0] == "call" and x[2] in ("branch", "ok_or_else", "ok_or") and x[3]:
+            x = x[3][0]
+        elif x[0] == "call" and x[2] == "checked_mul":
+            return _same_pair(x[3], dim_args)
+        else:
+            break
     return False
 
 
